@@ -8,6 +8,7 @@ import OsacaVerif.Lemmas.Winding
 import OsacaVerif.Lemmas.EdgeLocal
 import OsacaVerif.Lemmas.LcdChar
 import OsacaVerif.Lemmas.CycleNorm
+import OsacaVerif.Lemmas.SpecCycles
 /-
   C05 — Loop-carried dependencies are exactly the cross-iteration dependency cycles.
   (Model: `LCD.lcd`; independent oracle: `Spec.cycles`.)
@@ -22,8 +23,9 @@ import OsacaVerif.Lemmas.CycleNorm
   * `lcd_sound`, `lcd_complete`, `lcd_sound_normal`, `lcd_key_collision_free`, `lcd_reported_once` —
     the reported entries are exactly the winding-1 dependency cycles of the stream `k^ω`
     (`IsStreamCycle (streamDep …)`), each reported once with its members and latency sum.
-  Not proved: that the executable oracle `Spec.cycles` (used by the harness on explicit edge lists)
-  enumerates the same `IsStreamCycle` objects — the two are compared by the differential check only.
+  * `spec_cycles_iff_lcd`, `lcd_found_by_spec_cycles`, `spec_cycles_iff_lcd_doubled` — the executable
+    oracle `Spec.cycles` (used by the harness on explicit edge lists) enumerates exactly the same
+    `IsStreamCycle` objects: `lcd` and `Spec.cycles` agree as sets of (member lines, latency).
 -/
 namespace OsacaVerif.Props.C05
 open OsacaVerif OsacaVerif.DG OsacaVerif.LCD
@@ -605,6 +607,276 @@ example :
         isLd := false, changes := [], changesPost := [] }
     (lcd .x86 false {} 1000 [mk 3 [r "xmm1"] [] [r "xmm0"] 4, mk 4 [r "rax"] [] [r "rbx"] 1]).map
       (fun e => (e.lines, e.latency)) = [([3], 4), ([4], 1)] := by
+  decide +kernel
+
+/-! ### the executable oracle `Spec.cycles` enumerates the same cycles -/
+
+/-- instruction → instruction edges of a dependency graph as explicit weighted edges over lines -/
+def instrEdges (es : List Edge) : List Spec.WEdge :=
+  es.filterMap fun e => if !e.src.load && !e.dst.load then some ⟨e.src.line, e.dst.line, e.w⟩ else none
+
+theorem mem_instrEdges (es : List Edge) (e : Spec.WEdge) :
+    e ∈ instrEdges es ↔ (e.dst, e.w) ∈ succs es e.src := by
+  rw [mem_succs]
+  simp only [instrEdges, List.mem_filterMap]
+  constructor
+  · rintro ⟨g, hg, h⟩
+    by_cases hc : (!g.src.load && !g.dst.load) = true
+    · rw [if_pos hc] at h
+      simp only [Bool.and_eq_true, Bool.not_eq_true'] at hc
+      simp only [Option.some.injEq] at h
+      subst h
+      obtain ⟨⟨sl, sb⟩, ⟨dl, db⟩, gw⟩ := g
+      simp only at hc
+      obtain ⟨rfl, rfl⟩ := hc
+      exact hg
+    · rw [if_neg hc] at h; cases h
+  · intro h
+    exact ⟨_, h, by simp⟩
+
+/-- `intra`: the instruction → instruction edges of the kernel's own graph -/
+def intraOf (isa : Isa) (fd : Bool) (par : Params) (k : List Ins) : List Spec.WEdge :=
+  instrEdges (create isa fd par k)
+
+/-- `cross`: the edges of the doubled kernel from the first copy into the second, target mapped back -/
+def crossOf (isa : Isa) (fd : Bool) (par : Params) (floor : Nat) (k : List Ins) : List Spec.WEdge :=
+  (instrEdges (lcdGraph isa fd par floor k)).filterMap fun e =>
+    if e.src < offsetOf floor k ∧ offsetOf floor k ≤ e.dst then
+      some ⟨e.src, e.dst - offsetOf floor k, e.w⟩ else none
+
+/-- `intra` as the harness extracts it: the edges of the doubled kernel inside the first copy -/
+def intraDoubledOf (isa : Isa) (fd : Bool) (par : Params) (floor : Nat) (k : List Ins) : List Spec.WEdge :=
+  (instrEdges (lcdGraph isa fd par floor k)).filter fun e =>
+    decide (e.src < offsetOf floor k ∧ e.dst < offsetOf floor k)
+
+theorem mem_crossOf (isa : Isa) (fd : Bool) (par : Params) (floor : Nat) (k : List Ins) (e : Spec.WEdge) :
+    e ∈ crossOf isa fd par floor k ↔
+      e.src < offsetOf floor k ∧ (e.dst + offsetOf floor k, e.w) ∈ succs (lcdGraph isa fd par floor k) e.src := by
+  simp only [crossOf, List.mem_filterMap]
+  constructor
+  · rintro ⟨g, hg, h⟩
+    by_cases hc : g.src < offsetOf floor k ∧ offsetOf floor k ≤ g.dst
+    · rw [if_pos hc] at h
+      simp only [Option.some.injEq] at h
+      subst h
+      have := (mem_instrEdges _ g).mp hg
+      simp only
+      rw [Nat.sub_add_cancel hc.2]
+      exact ⟨hc.1, this⟩
+    · rw [if_neg hc] at h; cases h
+  · rintro ⟨h1, h2⟩
+    refine ⟨⟨e.src, e.dst + offsetOf floor k, e.w⟩, (mem_instrEdges _ _).mpr h2, ?_⟩
+    rw [if_pos ⟨h1, by simp⟩]
+    simp
+
+theorem lines_eq_range (k : List Ins) : k.map (·.line) = (List.range k.length).map (lineAt k) := by
+  apply List.ext_getElem
+  · simp
+  · intro i h1 h2
+    have hi : i < k.length := by simpa using h1
+    simp [lineAt, hi]
+
+/-- inside the body the successor relation of the kernel's own graph is the stream relation -/
+theorem succs_body_iff (isa : Isa) (fd : Bool) (par : Params) (k : List Ins) (hwf : WFKernel k) (x y : Nat)
+    (hxy : x < y) (hy : y < k.length) (w : Rat) :
+    (lineAt k y, w) ∈ succs (create isa fd par k) (lineAt k x) ↔ streamDep isa fd par k x y = some w := by
+  rw [edge_pos isa fd par k hwf x y hxy hy, ← depW_erase]
+  unfold streamDep
+  have e1 : ∀ t (ht : t < k.length), eraseLine k[t] = sAt k t := by
+    intro t ht
+    have := double_erase_getElem 0 k t (by rw [double_length]; omega)
+    rw [← this]
+    congr 1
+    simp [double, List.getElem_append_left ht]
+  have e2 : ((k.drop (x + 1)).take (y - x - 1)).map eraseLine = segAt k x y := by
+    rw [← double_seg 0 k x y (by omega)]
+    congr 1
+    simp only [double]
+    rw [List.drop_append_of_le_length (by omega), List.take_append_of_le_length (by simp; omega)]
+  rw [e1 x (by omega), e1 y hy, e2]
+
+/-- a line of the doubled kernel below the offset sits in the first copy, one at or above it in the second -/
+theorem double_pos_split (floor : Nat) (k : List Ins) (t : Nat) (ht : t < 2 * k.length) :
+    (t < k.length ∧ lineAt (double (offsetOf floor k) k) t = lineAt k t ∧ lineAt k t < offsetOf floor k) ∨
+    (k.length ≤ t ∧ lineAt (double (offsetOf floor k) k) t = lineAt k (t - k.length) + offsetOf floor k) := by
+  by_cases h : t < k.length
+  · left
+    refine ⟨h, lineAt_double_first _ k t h, ?_⟩
+    rw [lineAt_lt k t h]; exact offset_ok floor k _ (List.getElem_mem h)
+  · right
+    refine ⟨by omega, ?_⟩
+    have e : t = (t - k.length) + k.length := by omega
+    conv => lhs; rw [e]
+    exact lineAt_double_second _ k _ (by omega)
+
+/-- **the explicit edge lists represent the stream relation**: `intraOf` / `crossOf` of a well-formed
+    kernel satisfy `EdgeSpec` for `streamDep k`, the body length and the line map of `k`. -/
+theorem edgeSpec_lcd (isa : Isa) (fd : Bool) (par : Params) (floor : Nat) (k : List Ins) (hwf : WFKernel k) :
+    EdgeSpec (streamDep isa fd par k) k.length (lineAt k) (intraOf isa fd par k) (crossOf isa fd par floor k) where
+  inj := fun x y hx hy h => wf_lineAt_inj k hwf x y hx hy h
+  mono := fun x y hxy hy => wf_lineAt_lt k hwf x y hxy hy
+  intra_pos := by
+    intro e he
+    have hs := (mem_instrEdges _ e).mp he
+    obtain ⟨x, y, hxy, hy, hlx, hly⟩ := edge_has_pos isa fd par k hwf _ _ _ hs
+    refine ⟨x, y, hxy, hy, hlx, hly, ?_⟩
+    rw [← hlx, ← hly] at hs
+    exact (succs_body_iff isa fd par k hwf x y hxy hy e.w).mp hs
+  intra_mem := by
+    intro x y w hxy hy hd
+    exact (mem_instrEdges _ _).mpr ((succs_body_iff isa fd par k hwf x y hxy hy w).mpr hd)
+  cross_pos := by
+    intro e he
+    obtain ⟨hsrc, hs⟩ := (mem_crossOf isa fd par floor k e).mp he
+    have hwfK := double_wf floor k hwf
+    obtain ⟨x, y, hxy, hy, hlx, hly⟩ := edge_has_pos isa fd par _ hwfK _ _ _ hs
+    rw [double_length] at hy
+    rcases double_pos_split floor k x (by omega) with ⟨hx, hx1, _⟩ | ⟨_, hx1⟩
+    · rcases double_pos_split floor k y hy with ⟨_, hy1, hy2⟩ | ⟨hyn, hy1⟩
+      · rw [hy1] at hly; omega
+      · refine ⟨x, y - k.length, hx, by omega, by rw [← hx1]; exact hlx, by rw [hy1] at hly; omega, ?_⟩
+        rw [← hlx, ← hly] at hs
+        have eyn : y - k.length + k.length = y := by omega
+        rw [eyn]
+        exact (succs_double_iff isa fd par _ k hwfK x y hxy hy e.w).mp hs
+    · rw [hx1] at hlx; omega
+  cross_mem := by
+    intro x y w hx hy hd
+    have hwfK := double_wf floor k hwf
+    have hs := (succs_double_iff isa fd par (offsetOf floor k) k hwfK x (y + k.length) (by omega) (by omega) w).mpr hd
+    rw [lineAt_double_first _ k x hx, lineAt_double_second _ k y hy] at hs
+    apply (mem_crossOf isa fd par floor k _).mpr
+    refine ⟨?_, hs⟩
+    show lineAt k x < offsetOf floor k
+    rw [lineAt_lt k x hx]; exact offset_ok floor k _ (List.getElem_mem hx)
+
+/-- the harness' way of extracting `intra` (first copy of the doubled graph) represents the same relation -/
+theorem edgeSpec_lcd_doubled (isa : Isa) (fd : Bool) (par : Params) (floor : Nat) (k : List Ins) (hwf : WFKernel k) :
+    EdgeSpec (streamDep isa fd par k) k.length (lineAt k) (intraDoubledOf isa fd par floor k)
+      (crossOf isa fd par floor k) where
+  inj := (edgeSpec_lcd isa fd par floor k hwf).inj
+  mono := (edgeSpec_lcd isa fd par floor k hwf).mono
+  cross_pos := (edgeSpec_lcd isa fd par floor k hwf).cross_pos
+  cross_mem := (edgeSpec_lcd isa fd par floor k hwf).cross_mem
+  intra_pos := by
+    intro e he
+    obtain ⟨he1, he2⟩ := List.mem_filter.mp he
+    have hb : e.src < offsetOf floor k ∧ e.dst < offsetOf floor k := by simpa using he2
+    have hs := (mem_instrEdges _ e).mp he1
+    have hwfK := double_wf floor k hwf
+    obtain ⟨x, y, hxy, hy, hlx, hly⟩ := edge_has_pos isa fd par _ hwfK _ _ _ hs
+    rw [double_length] at hy
+    rcases double_pos_split floor k y hy with ⟨hyn, hy1, _⟩ | ⟨_, hy1⟩
+    · rcases double_pos_split floor k x (by omega) with ⟨hxn, hx1, _⟩ | ⟨_, _⟩
+      · refine ⟨x, y, hxy, hyn, by rw [← hx1]; exact hlx, by rw [← hy1]; exact hly, ?_⟩
+        rw [← hlx, ← hly] at hs
+        exact (succs_double_iff isa fd par _ k hwfK x y hxy hy e.w).mp hs
+      · omega
+    · rw [hy1] at hly; omega
+  intra_mem := by
+    intro x y w hxy hy hd
+    have hwfK := double_wf floor k hwf
+    have hs := (succs_double_iff isa fd par (offsetOf floor k) k hwfK x y hxy (by omega) w).mpr hd
+    rw [lineAt_double_first _ k x (by omega), lineAt_double_first _ k y hy] at hs
+    apply List.mem_filter.mpr
+    refine ⟨(mem_instrEdges _ _).mpr hs, ?_⟩
+    have h1 : lineAt k x < offsetOf floor k := by
+      rw [lineAt_lt k x (by omega)]; exact offset_ok floor k _ (List.getElem_mem _)
+    have h2 : lineAt k y < offsetOf floor k := by
+      rw [lineAt_lt k y hy]; exact offset_ok floor k _ (List.getElem_mem _)
+    simp [h1, h2]
+
+/-- **the reported entries, by member lines and latency, are exactly the normal-form stream cycles**
+    (both directions of `lcd_sound_normal` / `lcd_complete` in one statement) -/
+theorem lcd_normal_iff (isa : Isa) (fd : Bool) (par : Params) (floor : Nat) (k : List Ins) (hwf : WFKernel k)
+    (lines : List Nat) (lat : Rat) :
+    (∃ e ∈ lcd isa fd par floor k, e.lines = lines ∧ e.latency = lat) ↔
+      ∃ b, IsStreamCycle (streamDep isa fd par k) k.length b ∧ (∀ y ∈ b, y.1 < k.length) ∧
+        lines = b.map (fun y => lineAt k y.1) ∧ lat = (b.map (·.2)).sum := by
+  constructor
+  · rintro ⟨e, he, rfl, rfl⟩
+    obtain ⟨b, h1, h2, _, h4, _, h6⟩ := lcd_sound_normal isa fd par floor k hwf e he
+    exact ⟨b, h1, h2, h4, h6⟩
+  · rintro ⟨b, hc, hlt, rfl, rfl⟩
+    have hst : StartsBelow k.length b := by
+      cases b with
+      | nil => exact absurd hc (fun h => h)
+      | cons x rest => exact hlt x List.mem_cons_self
+    obtain ⟨e, he, hperm, hlat⟩ := lcd_complete isa fd par floor k hwf b hc hst
+    refine ⟨e, he, ?_, hlat⟩
+    obtain ⟨p, _, hl, ht, _, _, _⟩ := entry_latency _ _ e he
+    have hzip : e.lines.zip e.lats = normPath (offsetOf floor k) p := by rw [hl, ht, zip_fst_snd]
+    have hmem : cycleMembers k b = b.map (fun y => (lineAt k y.1, y.2)) := by
+      unfold cycleMembers
+      apply List.map_congr_left
+      intro y hy
+      rw [Nat.mod_eq_of_lt (hlt y hy)]
+    have hinc : (verts b).Pairwise (· < ·) := by
+      cases b with
+      | nil => exact absurd hc (fun h => h)
+      | cons x rest =>
+        exact (List.pairwise_append.mp (chain_increasing _ _ _ hc)).1
+    have hsorted : (b.map (fun y => (lineAt k y.1, y.2))).Pairwise le2 := by
+      rw [List.pairwise_map]
+      have : b.Pairwise (fun x y => x.1 < y.1) := by simpa [verts, List.pairwise_map] using hinc
+      refine this.imp_of_mem ?_
+      intro x y _ hy hxy
+      exact Or.inl (wf_lineAt_lt k hwf x.1 y.1 hxy (hlt y hy))
+    have heq : e.lines.zip e.lats = b.map (fun y => (lineAt k y.1, y.2)) := by
+      refine List.Perm.eq_of_pairwise (le := le2) (fun _ _ _ _ h1 h2 => le2_antisymm h1 h2) ?_ hsorted
+        (hperm.trans (List.Perm.of_eq hmem))
+      rw [hzip]; exact sortPairs_sorted _
+    have : e.lines = (e.lines.zip e.lats).map (·.1) := by rw [hzip, hl]
+    rw [this, heq, List.map_map]; rfl
+
+/-- **`spec_cycles_iff_lcd`** (∀ well-formed kernels, any length): the executable oracle `Spec.cycles`,
+    run on the line list of `k`, the instruction edges of `k`'s graph and the first-copy → second-copy
+    edges of the doubled graph, returns a cycle with member lines `L` and latency `t` iff `lcd` reports
+    an entry with member lines `L` and latency `t`: the oracle and the model agree as sets of
+    (lines, latency).  Both are exactly the normal-form winding-1 cycles of the stream `k^ω`. -/
+theorem spec_cycles_iff_lcd (isa : Isa) (fd : Bool) (par : Params) (floor : Nat) (k : List Ins) (hwf : WFKernel k)
+    (c : Spec.Cycle) :
+    c ∈ Spec.cycles (k.map (·.line)) (intraOf isa fd par k) (crossOf isa fd par floor k) ↔
+      ∃ e ∈ lcd isa fd par floor k, e.lines = c.lines ∧ e.latency = c.latency := by
+  rw [lines_eq_range, cycles_iff (edgeSpec_lcd isa fd par floor k hwf), lcd_normal_iff isa fd par floor k hwf]
+
+/-- the same with `intra` extracted from the doubled graph (what the harness sends to the driver) -/
+theorem spec_cycles_iff_lcd_doubled (isa : Isa) (fd : Bool) (par : Params) (floor : Nat) (k : List Ins)
+    (hwf : WFKernel k) (c : Spec.Cycle) :
+    c ∈ Spec.cycles (k.map (·.line)) (intraDoubledOf isa fd par floor k) (crossOf isa fd par floor k) ↔
+      ∃ e ∈ lcd isa fd par floor k, e.lines = c.lines ∧ e.latency = c.latency := by
+  rw [lines_eq_range, cycles_iff (edgeSpec_lcd_doubled isa fd par floor k hwf),
+    lcd_normal_iff isa fd par floor k hwf]
+
+/-- one direction, spelled out: every entry `lcd` reports is found by `Spec.cycles` -/
+theorem lcd_found_by_spec_cycles (isa : Isa) (fd : Bool) (par : Params) (floor : Nat) (k : List Ins)
+    (hwf : WFKernel k) (e : Entry) (he : e ∈ lcd isa fd par floor k) :
+    (⟨e.lines, e.latency⟩ : Spec.Cycle) ∈
+      Spec.cycles (k.map (·.line)) (intraOf isa fd par k) (crossOf isa fd par floor k) :=
+  (spec_cycles_iff_lcd isa fd par floor k hwf _).mpr ⟨e, he, rfl, rfl⟩
+
+/-- the other direction: every cycle `Spec.cycles` returns is reported by `lcd` -/
+theorem spec_cycles_reported (isa : Isa) (fd : Bool) (par : Params) (floor : Nat) (k : List Ins)
+    (hwf : WFKernel k) (c : Spec.Cycle)
+    (hc : c ∈ Spec.cycles (k.map (·.line)) (intraOf isa fd par k) (crossOf isa fd par floor k)) :
+    ∃ e ∈ lcd isa fd par floor k, e.lines = c.lines ∧ e.latency = c.latency :=
+  (spec_cycles_iff_lcd isa fd par floor k hwf c).mp hc
+
+-- non-vacuity: on the three-instruction ring both enumerate the single cycle [3, 4, 7] of latency 7;
+-- the edge lists are non-trivial (two intra edges, one cross edge)
+example :
+    let r (n : String) : Op := .reg { name := Text.ofString n }
+    let mk (line : Nat) (src dst sd : List Op) (lat : Rat) : Ins :=
+      { line := line, src := src, dst := dst, srcDst := sd, lat := lat, latWoLoad := none, hasLd := false,
+        isLd := false, changes := [], changesPost := [] }
+    let k := [mk 3 [r "rbx"] [r "rax"] [] 4, mk 4 [r "rax"] [r "rcx"] [] 1, mk 7 [r "rcx"] [r "rbx"] [] 2]
+    WFKernel k ∧
+    (intraOf .x86 false {} k).map (fun e => (e.src, e.dst, e.w)) = [(3, 4, 4), (4, 7, 1)] ∧
+    (intraDoubledOf .x86 false {} 1000 k).map (fun e => (e.src, e.dst, e.w)) = [(3, 4, 4), (4, 7, 1)] ∧
+    (crossOf .x86 false {} 1000 k).map (fun e => (e.src, e.dst, e.w)) = [(7, 3, 2)] ∧
+    (Spec.cycles (k.map (·.line)) (intraOf .x86 false {} k) (crossOf .x86 false {} 1000 k)).map
+      (fun c => (c.lines, c.latency)) = [([3, 4, 7], 7)] ∧
+    (lcd .x86 false {} 1000 k).map (fun e => (e.lines, e.latency)) = [([3, 4, 7], 7)] := by
   decide +kernel
 
 end OsacaVerif.Props.C05
